@@ -72,6 +72,21 @@ def run(res, tier, replay):
                 sc = scenario.Scn().file("in0.cab", outer + tail).op("cab_new").op("cab_param", 3, combo[0]).op("cab_param", 1, combo[1])
                 sc.op("cab_search", "c0", "in0.cab").op("cab_list", "c0").op("cab_extract_all", "c0", "out", 60)
                 scns.append(sc); meta.append(("valid", 1000 + 2 * i + len(tail), combo, c, None))
+    # MSZIP folders whose blocks before the last one are shorter than 32768 bytes (each block deflated on its own): valid, and
+    # the repair mode must leave them alone
+    import zlib
+    for i in range(max(2, n // 4)):
+        sizes = [rng.choice([1000, 5000, 32768]), rng.choice([32768, 2000]), rng.choice([5000, 100])]
+        data = bytes(rng.choice(b"abcdefgh \n") for _ in range(sum(sizes))); blocks = []; o = 0
+        for sz in sizes:
+            co = zlib.compressobj(6, zlib.DEFLATED, -15); blocks.append((b"CK" + co.compress(data[o:o + sz]) + co.flush(), sz)); o += sz
+        cut = rng.randrange(1, sizes[0])
+        mem = [cabfmt.Member(b"a.bin", data[:cut]), cabfmt.Member(b"b.bin", data[cut:])]
+        for m_ in mem: m_.length = len(m_.data)
+        cabb = cabfmt.build_cab([(1, blocks)], [(b"a.bin", cut, 0, 0, 0x5A21, 0x6C43, 0x20), (b"b.bin", len(data) - cut, cut, 0, 0x5A21, 0x6C43, 0x20)])
+        c = _C(); c.members = mem; c.folders = [cabfmt.Folder(("mszip",), mem)]; c.files = {"x": cabb}; c.parts = ["x"]
+        for combo in combos:
+            scns.append(scn(c.files, c.parts, combo, 2)); meta.append(("valid", 2000 + i, combo, c, None))
     trs = scenario.run_scenarios(exe, scns)
     nbad = 0
     def summary(t):
